@@ -77,6 +77,8 @@ func hxEnc(i int) Encoding {
 		return EncodingQP
 	case 1:
 		return EncodingB64
+	case 3:
+		return EncodingUSASCII // "7bit": content is sent as it is, like 8bit
 	}
 	return NoEncoding
 }
